@@ -18,6 +18,9 @@ def limit_ms(on):
 def model_for(rules, on_step):
     """A step with one irq act; the timeout rules sit on the act or on the step."""
     tmo = [scen.timeout(on, [scen.step("ts%d" % i, [scen.irq("ta%d" % i)])]) for i, on in enumerate(rules)]
+    if on_step == "both":
+        # rule 0 sits on the step, the others on its act (same or different durations on two tasks of one ancestor chain)
+        return scen.wf("m", [scen.step("s1", [scen.irq("a1", timeout=tmo[1:])], timeout=tmo[:1]), scen.step("s2", [scen.irq("a2")])])
     if on_step:
         return scen.wf("m", [scen.step("s1", [scen.irq("a1")], timeout=tmo), scen.step("s2", [scen.irq("a2")])])
     return scen.wf("m", [scen.step("s1", [scen.irq("a1", timeout=tmo)]), scen.step("s2", [scen.irq("a2")])])
@@ -27,7 +30,7 @@ class TRun(Run):
     def __init__(self, I, res, rules, on_step, cfg, prop):
         self.I = I
         self.res = res
-        self.name = "timeout:%s:%s" % ("step" if on_step else "act", "+".join(rules))
+        self.name = "timeout:%s:%s" % ("both" if on_step == "both" else "step" if on_step else "act", "+".join(rules))
         self.cfg = cfg
         self.prop = prop
         self.rules = rules
@@ -63,9 +66,13 @@ class TRun(Run):
         self.pid = W.field(self.proc.c[0], "Process", "id")
         return W
 
-    def timed_task(self):
-        nid = "s1" if self.on_step else "a1"
-        ts = [t for t in self.tasks() if t["nid"] == nid]
+    def timed_nid(self, i=0):
+        if self.on_step == "both":
+            return "s1" if i == 0 else "a1"
+        return "s1" if self.on_step else "a1"
+
+    def timed_task(self, i=0):
+        ts = [t for t in self.tasks() if t["nid"] == self.timed_nid(i)]
         return ts[0] if ts else None
 
     def fired(self, i):
@@ -79,6 +86,7 @@ class TRun(Run):
         if tt is None:
             raise Unsupported("timed task not created")
         start = tt["start_time"]
+        starts = [self.timed_task(i)["start_time"] for i in range(len(self.rules))]
         self.start_var = str(start)
         self.ev_reads = []
         k = self.cfg.k
@@ -102,6 +110,7 @@ class TRun(Run):
                 continue
             before = {i: len(self.fired(i)) for i in range(len(self.rules))}
             tstate = self.timed_task()["state"]
+            tstates = [self.timed_task(i)["state"] for i in range(len(self.rules))]
             n0 = len(self.readings)
             W.tick()
             W.drain()
@@ -117,6 +126,7 @@ class TRun(Run):
             proc_running = self.proc_state() == "Running" or True
             for i, on in enumerate(self.rules):
                 lim = limit_ms(on)
+                tstate, start = tstates[i], starts[i]
                 now_fired = len(self.fired(i)) - before[i]
                 total = len(self.fired(i))
                 if total > 1:
@@ -233,7 +243,8 @@ def confirm(v, oracles=()):
         if n > 1:
             roles.add("timeout:fired-more-than-once")
     # evaluate never-early / due on the snapshots
-    timed = "s1" if on_step else "a1"
+    timed_of = lambda i: ("s1" if i == 0 else "a1") if on_step == "both" else ("s1" if on_step else "a1")
+    timed = timed_of(0)
     fired_before = {i: 0 for i in range(len(rules))}
     si = 0
     snaps = obs["snapshots"]
@@ -253,7 +264,7 @@ def confirm(v, oracles=()):
         for i, on in enumerate(rules):
             n = len([t for t in tl if t["nid"] == "ts%d" % i])
             lim = limit_ms(on)
-            tt = [t for t in tl if t["nid"] == timed]
+            tt = [t for t in tl if t["nid"] == timed_of(i)]
             if n > fired_before[i]:
                 # measured on the engine's own clock: the handler step was stamped before the timed task had been open for the limit
                 fired_ts = [t for t in tl if t["nid"] == "ts%d" % i]
@@ -288,7 +299,7 @@ def run_rules(I, rules, on_step, cfg_kw, prop):
         r.install_event_monitor = inst
         r.run()
 
-    res = explore(I, "timeout:%s:%s" % ("step" if on_step else "act", "+".join(rules)), one, max_paths=cfg.max_paths)
+    res = explore(I, "timeout:%s:%s" % ("both" if on_step == "both" else "step" if on_step else "act", "+".join(rules)), one, max_paths=cfg.max_paths)
     seen = {}
     for v in res.violations:
         if v.role in seen:
